@@ -22,7 +22,8 @@ RULE = ("files from the C11 generator restricted to option sets that always reco
         "with further accesses - each handle must show the event the model assigns to its access path; search only: "
         "HDF5Reader.get_waveforms(event_id, antenna_id, waveform_type) as one more access path, ONE reader object "
         "opened again after each append session ('a' / 'r+') while the file grows, FileGenerator given a bare file "
-        "name, FileGenerator.count after the count setter; FileGenerator file lists in the CALLER's order with names "
+        "name, FileGenerator.count after the count setter; stored particle values that are falsy but valid (weights "
+        "exactly 0.0, vertex components 0.0 and -0.0, em/had fraction 0) compared exactly incl. the sign of zero; FileGenerator file lists in the CALLER's order with names "
         "that are not in lexicographic order (run_8..run_11, reversed letters, different directories, glob "
         "characters, a file listed twice); LOOK-UP tables written with create_analysis_dataset and indexed out of "
         "event order with add_analysis_indices (shared rows, cells pointing back, overlapping ranges, an early event "
